@@ -22,7 +22,19 @@ package c14
 // a path of the harness's work directory).  The kinds nr_* and sr_* do not call
 // rand() in fp(): a program whose first rand() comes after srand(n), or that
 // never calls rand().  The line printed with `print` follows the empty chunk
-// "pl".
+// "pl".  A second unkeyed line follows the empty chunk "pf": what printf and
+// sprintf make of %c (numbers above 127, strings that start with a multi-byte
+// character), %s of a number (CONVFMT) and %d with format strings that are the
+// same text in every run; the kind fmtc does the same with a format string
+// built at run time (after the empty chunk "fc").  These lines end with "\n"
+// whatever ORS is and are never passed to length() (which counts characters
+// under Config.Chars).
+//
+// The kinds dp_* call deep(depth, mode): `depth` (Config.Vars of the run)
+// nested calls of a user-defined function with a local scalar and a local
+// array each, at the bottom of which the function returns (dp_ok), fails
+// (dp_err), executes exit 3 (dp_exit) or cancels the call's context and loops
+// (dp_cancel).
 //
 // The one range pattern of the program is started only by the kinds rg_*; it
 // is closed by the record that names the run (t<tag>), except for rg_eof.
@@ -72,6 +84,10 @@ function fp(   cv, m, k) {
   if (mode !~ /^(nr|sr)_/) emit("rand", rnd())
   emit("pl", "")
   print 0.1234567, "q"
+  emit("pf", "")
+  printf "%c%c|%c%c|", 233, 65, "\303\251x", "\342\202\254"
+  cv = sprintf("%c%c", 233, "\303\251x")
+  printf "%s|%s|%d\n", cv, 0.1234567, 3.9
 }
 
 function boom(n,   lv, la) {
@@ -83,6 +99,14 @@ function spin(n,   lv, la) {
   lv = n; la[n] = 1
   if (n == 7) vcancel()
   return lv
+}
+function deep(n, how,   lv, la) {
+  lv = n; la[n] = n
+  if (n > 1) return deep(n - 1, how) + 1
+  if (how == "dp_err") return 1 / (n - 1)
+  if (how == "dp_exit") exit 3
+  if (how == "dp_cancel") { vcancel(); while (1) lv++ }
+  return 1
 }
 function fact(n,   la) { la[n] = n; if (n <= 1) return 1; return n * fact(n - 1) }
 
@@ -98,6 +122,7 @@ BEGIN {
   else if (mode == "sr_time") { emit("sr", srand()); emit("rnd", rnd()) }
   else if (mode == "av_write") { ARGV[5] = "zz"; ENVIRON["token"] = "tk"; emit("argvw", enum(ARGV)); emit("envw", enum(ENVIRON)) }
   else if (mode == "av_del") { delete ARGV[2]; delete ENVIRON["home"]; emit("argvw", enum(ARGV)); emit("envw", enum(ENVIRON)) }
+  else if (mode == "fmtc") { f = "%c" "/%c"; ln = sprintf(f, 200, "\342\202\254"); emit("fc", ""); printf f "|%s\n", 233, "\303\251x", ln }
   else if (mode == "midfile") { ln = ""; r = (getline ln < rf); emit("midret", r); emit("mid", ln) }
   else if (mode == "match") match("xxabc", /abc/)
   else if (mode == "p_io") {
@@ -141,6 +166,7 @@ mode == "errfunc"  { s = 0; for (i = 0; i < 5; i++) s += boom(i) }
 mode == "errforin" { delete t; t["a"]; t["bb"]; for (k in t) z = 1 / (NF - NF) }
 mode == "cancel"   { j = 0; while (1) spin(j++) }
 mode == "p_func"   { s += $1 }
+mode ~ /^dp_/      { emit("deep", deep(depth + 0, mode)) }
 mode == "rg_exit"     && $1 ~ /^[0-9]/ { exit 3 }
 mode == "rg_err"      && $1 ~ /^[0-9]/ { z = 1 / (NF - NF) }
 mode == "rg_cancel"   && $1 ~ /^[0-9]/ { j = 0; while (1) spin(j++) }
